@@ -16,6 +16,8 @@ def run(ctx):
     ctx.rule("R06.5", "coupling invariant I1 (restart marker set <=> restart timer armed) holds at the exit of every handler path from every "
                       "admissible entry state, so the replacement is started exactly once; timer and marker are armed with the same flag")
     ctx.rule("R06.6", "signal_child maps the Signal with to_nix(), falls back to SIGTERM, and sends it to the child; it never kills")
+    ctx.rule("R06.8", "the signal delivered is the one requested: Signal::to_nix maps every first-class signal to the nix signal of its POSIX "
+                      "number (table shared with C19 R19.1)")
     ctx.rule("R06.7", "restart_with_signal = [GracefulStop, Start] and stop_with_signal = [GracefulStop] on the normal queue")
     api = {}
     try:
@@ -27,6 +29,11 @@ def run(ctx):
             fn(ctx)
         except Skip:
             pass
+    try:
+        from . import c19
+        c19.delivery_table(ctx, "R06.8")
+    except Skip:
+        pass
     try:
         B = jobtask.Bodies(ctx, "R06.1")
         # arm shape
